@@ -8,9 +8,9 @@ K_LEDGER = KaniUnit(
     name="k_ledger", harness_file="kani/harness_unix.rs", append_to="src/platform/unix/mod.rs",
     harnesses=["ledger_connect", "ledger_channel", "ledger_receiver_consume", "ledger_sender_clones",
                "ledger_opaque_channel", "ledger_shared_memory_drop", "ledger_shared_memory_clone"],
-    props=["C11", "C03", "C16", "C04", "C12"],
-    id_props=[("kani.ledger.sender_", ["C11", "C03"]), ("kani.ledger.opaque_", ["C11", "C16", "C03", "C12"]),
-              ("kani.ledger.consume", ["C11", "C04"]), ("kani.ledger.moved_", ["C11", "C04"]), ("kani.ledger.consumed_", ["C11", "C04"]),
+    props=["C11", "C03", "C16", "C04", "C12", "C09"],
+    id_props=[("kani.ledger.sender_", ["C11", "C03"]), ("kani.ledger.opaque_", ["C11", "C16", "C03", "C12", "C09"]),
+              ("kani.ledger.consume", ["C11", "C04"]), ("kani.ledger.moved_", ["C11", "C04", "C09"]), ("kani.ledger.consumed_", ["C11", "C04"]),
               ("kani.ledger.", ["C11"])],
     safety_props=["C11"],
     assumptions=["socket/socketpair return fresh descriptors or fail; close succeeds on an open descriptor; connect(2) fails nondeterministically",
@@ -24,8 +24,8 @@ K_LEDGER = KaniUnit(
 K_CMSG = KaniUnit(
     name="k_cmsg", harness_file="kani/harness_unix.rs", append_to="src/platform/unix/mod.rs",
     harnesses=["cmsg_recv_blocking", "cmsg_recv_nonblocking", "cmsg_recv_timeout", "conv_channel_is_closed"],
-    props=["C10", "C03", "C11", "C02"],
-    id_props=[("kani.cmsg.recvmsg_cmsg_cloexec", ["C11"]), ("kani.cmsg.result_mapping", ["C10", "C03"]), ("kani.cmsg.timeout_ready", ["C10", "C03", "C02"]),
+    props=["C10", "C03", "C11", "C02", "C12"],
+    id_props=[("kani.cmsg.recvmsg_cmsg_cloexec", ["C11"]), ("kani.cmsg.result_mapping", ["C10", "C03"]), ("kani.cmsg.timeout_ready", ["C10", "C03", "C02", "C12"]),
               ("kani.conv.", ["C03", "C12"]), ("kani.cmsg.", ["C10"])],
     safety_props=["C10"],
     assumptions=["fcntl(F_SETFL) sets exactly the O_NONBLOCK bit it is given or fails; recvmsg and poll return ANY value (revents too)",
@@ -39,9 +39,9 @@ K_FFI = KaniUnit(
     name="k_ffi", harness_file="kani/harness_unix.rs", append_to="src/platform/unix/mod.rs",
     harnesses=["ffi_cmsg_arithmetic", "ffi_unix_cmsg_new", "ffi_is_socket", "ffi_new_sockaddr_un",
                "ffi_send_first_fragment", "ffi_send_followup_fragment", "ffi_map_file", "ffi_map_file_mmap_fails", "ffi_create_shmem", "ffi_make_socket_lingering"],
-    props=["C18", "C04", "C08", "C01", "C13", "C05", "C11"],
-    id_props=[("kani.ffi.is_socket", ["C04", "C18"]), ("kani.ffi.map", ["C05", "C18"]), ("kani.ffi.create_shmem_name", ["C11", "C05"]), ("kani.ffi.create_shmem_returns", ["C11"]), ("kani.ffi.create_shmem", ["C05", "C11"]), ("kani.ffi.mmap", ["C05", "C18"]), ("kani.ffi.empty_region", ["C05", "C18"]),
-              ("kani.ffi.one_mapping", ["C05", "C18"]), ("kani.ffi.first_fragment", ["C01", "C13", "C18"]), ("kani.ffi.followup", ["C01", "C13", "C10", "C18"]),
+    props=["C18", "C04", "C08", "C01", "C13", "C05", "C11", "C09", "C16"],
+    id_props=[("kani.ffi.is_socket", ["C04", "C18"]), ("kani.ffi.map", ["C05", "C18"]), ("kani.ffi.create_shmem_name", ["C11", "C05"]), ("kani.ffi.create_shmem_returns", ["C11"]), ("kani.ffi.create_shmem", ["C05", "C11"]), ("kani.ffi.mmap", ["C05", "C18", "C16"]), ("kani.ffi.empty_region", ["C05", "C18", "C16"]),
+              ("kani.ffi.one_mapping", ["C05", "C18"]), ("kani.ffi.first_fragment", ["C01", "C13", "C18", "C09"]), ("kani.ffi.followup", ["C01", "C13", "C10", "C18", "C09"]),
               ("kani.ffi.descriptors_copied", ["C04", "C18"]), ("kani.ffi.control_message", ["C04", "C18"]), ("kani.ffi.no_descriptors", ["C04", "C18"]), ("kani.ffi.sockaddr", ["C08", "C18"]), ("kani.ffi.lingering", ["C08", "C12"]), ("kani.ffi.sun_path", ["C08", "C18"]), ("kani.ffi.", ["C18"])],
     safety_props=["C18"],
     assumptions=["malloc/free as modelled by CBMC (allocation may fail); fstat returns ANY mode or fails; lengths range over all u32",
